@@ -18,7 +18,7 @@ from elementpath.exceptions import ElementPathValueError
 from elementpath.datatypes import AnyAtomicType
 from elementpath.sequences import xlist
 from elementpath.helpers import split_function_test
-from elementpath.sequence_types import match_sequence_type
+from elementpath.sequence_types import match_sequence_type, is_sequence_type_restriction
 from elementpath.xpath_context import XPathSchemaContext
 from .functions import XPathFunction
 
@@ -253,7 +253,8 @@ class XPathMap(XPathFunction):
             return False
         elif value_st != 'empty-sequence()' and not value_st.endswith(('?', '*')):
             return False
+        elif not is_sequence_type_restriction('xs:anyAtomicType', key_st):
+            return False
         else:
-            return any(match_sequence_type(k, key_st, self.parser, False) and
-                       match_sequence_type(v, value_st, self.parser)
-                       for k, v in self.items())
+            # A map is a function(xs:anyAtomicType) as V?, where V is matched by all its values
+            return all(match_sequence_type(v, value_st, self.parser) for v in self.values())
